@@ -5,7 +5,7 @@
 # under /verif/seeded/<seed-id>/ with meta.json. Never touches /repo's working tree.
 set -u
 id="$1"; prop="$2"; shift 2
-W=/tmp/seed-$id
+W=${SEEDW:-/tmp/seed-$id}
 export GOPROXY=off GOSUMDB=off GOTOOLCHAIN=local; unset GOFLAGS
 [ -s "$W/patch.diff" ] || { echo "no patch.diff in $W"; exit 2; }
 demo=$(cd "$W" && git status --porcelain | grep seeded_demo | awk '{print $2}' | head -1)
